@@ -53,7 +53,7 @@ func (c c14) Generate(seed uint64, tier string, idx int) *core.Plan {
 	p := &core.Plan{Prop: "C14", Seed: r.U64(), Tier: tier, Cfg: map[string]int64{}}
 	p.Cfg["spare"] = int64(r.Pick([]int{0, 7, 64}))
 	p.Cfg["keyseed"] = int64(r.Intn(1 << 30))
-	p.Cfg["msglen"] = int64(r.Pick([]int{0, 1, 31, 32, 33, 64, 200}))
+	p.Cfg["msglen"] = int64(r.Pick([]int{0, 1, 31, 32, 33, 64, 111, 112, 127, 128, 129, 150, 191, 192, 193, 200, 255, 256, 257, 500}))
 	switch idx % 4 {
 	case 0:
 		for k := 0; k < 2; k++ {
@@ -392,9 +392,9 @@ func (c c15) Generate(seed uint64, tier string, idx int) *core.Plan {
 		p.Steps = append(p.Steps, core.Step{Op: "pipe", A: []int64{
 			int64(r.Intn(1 << 30)),
 			int64(r.Pick([]int{0, 0, 1, 13, 32, 64, 94, 95, 96, 97, 111, 112, 127, 128, 129, 200, 300, 1000})), // context length
-			int64(r.Pick([]int{0, 1, 32, 100, 200})),                                                           // message length
-			int64(r.Intn(2)),                                                                                   // blinder order
-			int64(r.Intn(4)),                                                                                   // corruption: 0 none, 1 blind bit, 2 context bit, 3 context extended
+			int64(r.Pick([]int{0, 1, 32, 100, 111, 112, 127, 128, 129, 150, 191, 192, 193, 200, 256, 500})),    // message length
+			int64(r.Intn(2)), // blinder order
+			int64(r.Intn(4)), // corruption: 0 none, 1 blind bit, 2 context bit, 3 context extended
 			int64(r.Intn(1 << 20)),
 			int64(r.Intn(4)), // blind class: 0 random, 1 all zero, 2 all ones, 3 small
 		}})
